@@ -340,6 +340,16 @@ pub fn run_c11(ctx: &mut Ctx) {
         ctx.stats.merge(st);
         ctx.stats.extra.insert("large_constructed_sizes".into(), json!(sizes));
     }
+    {
+        let deep: Vec<usize> = tier.pick(vec![2100, 5000, 12_000], vec![2100, 5000, 12_000, 33_000, 65_000]);
+        let jobs: Vec<(&str, usize)> = DEEP_SHAPES.iter().flat_map(|s| deep.iter().map(move |n| (*s, *n))).collect();
+        let part = parallel(jobs.len(), |w| {
+            wd.tick();
+            scc_deep_all(jobs[w].0, jobs[w].1, None)
+        });
+        ctx.stats.merge(part);
+        ctx.stats.extra.insert("deep_graph_sizes".into(), json!(deep));
+    }
     let cases = tier.pick(5000u32, 40_000u32);
     let random = parallel(tier.pick(8, 16), |w| {
         let mut st = Stats::new();
@@ -375,7 +385,93 @@ pub fn run_c11(ctx: &mut Ctx) {
     ctx.stats.merge(random);
 }
 
+/// deep graphs for the recursive orderings behind scc(): a chain, a chain of 2-cycles, a chain with a back edge
+/// every 100 nodes. Run on a thread with a large stack (the library recurses once per level); judged against an
+/// independent Tarjan.
+pub fn deep_graph(shape: &str, n: usize) -> GCase {
+    let mut edges: Vec<Tri> = (0..n - 1).map(|i| (i as Key, (i + 1) as Key, 1)).collect();
+    match shape {
+        "chain-of-2-cycles" => edges.extend((0..n / 2).map(|i| ((2 * i + 1) as Key, (2 * i) as Key, 2))),
+        "chain-with-back-edges" => edges.extend((0..n / 100).map(|k| ((100 * k + 99) as Key, (100 * k) as Key, 3))),
+        _ => {}
+    }
+    GCase { n, prio: vec![0; n], edges }
+}
+pub const DEEP_SHAPES: [&str; 3] = ["chain", "chain-of-2-cycles", "chain-with-back-edges"];
+
+fn scc_deep<F: Flavour>(shape: &str, n: usize, st: &mut Stats) {
+    let g = deep_graph(shape, n);
+    let expect = scc_tarjan(g.n, &g.edges);
+    for (oi, order) in [(0..n).collect::<Vec<usize>>(), (0..n).rev().collect::<Vec<usize>>()].iter().enumerate() {
+        st.eval();
+        st.class(&format!("graphs.deep.{}", shape));
+        st.nontrivial(&(F::NAME, shape, n, oi));
+        let (graph, _nodes) = build_graph::<F>(&g, order);
+        let r = catch_unwind(AssertUnwindSafe(|| F::g_scc(&graph).iter().map(|comp| comp.iter().map(|n| F::key(n)).collect::<BTreeSet<Key>>()).collect::<Vec<_>>()));
+        let fail: Option<(&'static str, String)> = match r {
+            Err(p) => Some(("scc.panic", panic_msg(p))),
+            Ok(comps) => {
+                let total: usize = comps.iter().map(|x| x.len()).sum();
+                let got: BTreeSet<BTreeSet<Key>> = comps.into_iter().collect();
+                if total != n {
+                    Some(("scc.not-a-partition", format!("{} entries over {} members", total, n)))
+                } else if got != expect {
+                    let sizes = |s: &BTreeSet<BTreeSet<Key>>| { let mut m: BTreeMap<usize, usize> = BTreeMap::new(); for c in s { *m.entry(c.len()).or_insert(0) += 1; } m };
+                    Some(("scc.wrong-components", format!("component sizes (size -> count) got {:?}, expected {:?}", sizes(&got), sizes(&expect))))
+                } else {
+                    None
+                }
+            }
+        };
+        if let Some((clause, detail)) = fail {
+            st.report(Finding {
+                property: "C11".into(),
+                flavour: F::NAME.into(),
+                clause: clause.into(),
+                signature: format!("{} | scc | {}", F::NAME, clause),
+                case: json!({"kind": "scc-deep", "flavour": F::NAME, "shape": shape, "n": n}),
+                detail,
+            });
+            return;
+        }
+    }
+}
+
+pub fn scc_deep_all(shape: &str, n: usize, only: Option<&str>) -> Stats {
+    let (shape, only) = (shape.to_string(), only.map(|s| s.to_string()));
+    let h = std::thread::Builder::new().stack_size(4usize << 30).spawn(move || {
+        let mut st = Stats::new();
+        if only.as_deref().map_or(true, |o| o == Di::NAME) {
+            scc_deep::<Di>(&shape, n, &mut st);
+        }
+        if only.as_deref().map_or(true, |o| o == SDi::NAME) {
+            scc_deep::<SDi>(&shape, n, &mut st);
+        }
+        st
+    });
+    match h.map(|h| h.join()) {
+        Ok(Ok(st)) => st,
+        _ => {
+            let mut st = Stats::new();
+            st.harness_errors.push(format!("deep scc thread ({} {}) could not be run to completion", shape_name(n), n));
+            st
+        }
+    }
+}
+fn shape_name(_n: usize) -> &'static str {
+    "deep"
+}
+
 pub fn replay_c11(v: &Value, st: &mut Stats) -> Result<(), String> {
+    if v["kind"] == "scc-deep" {
+        let shape = v["shape"].as_str().unwrap_or("chain");
+        let n = v["n"].as_u64().unwrap_or(5000) as usize;
+        if !DEEP_SHAPES.contains(&shape) || n < 4 || n > 65000 {
+            return Err("malformed deep case".into());
+        }
+        st.merge(scc_deep_all(shape, n, v["flavour"].as_str()));
+        return Ok(());
+    }
     let g: GCase = serde_json::from_value(v["g"].clone()).map_err(|e| e.to_string())?;
     if g.edges.iter().any(|e| e.0 as usize >= g.n || e.1 as usize >= g.n) {
         return Err("malformed graph".into());
